@@ -239,6 +239,15 @@ func buildCases(thorough bool) []struct {
 						f := &refl.Filler{MaxRec: 1, Any: anyFn, OnlyField: i}
 						return f.Fill(t)
 					})
+					if deeperOneField[name] {
+						// the filler leaves a collection empty when its element type can reach a node
+						// type that is already on the stack (an envelope inside an envelope value):
+						// one more level for the one-field values, which stay small
+						add(fmt.Sprintf("%s/%s/only:%s/rec2", name, av.name, t.Field(i).Name), 6, func() reflect.Value {
+							f := &refl.Filler{MaxRec: 2, Any: anyFn, OnlyField: i}
+							return f.Fill(t)
+						})
+					}
 				}
 			}
 		}
@@ -265,6 +274,10 @@ func buildCases(thorough bool) []struct {
 	}
 	return out
 }
+
+// deeperOneField: small builder-side nodes whose one-field values are also built one recursion
+// level deeper (an envelope value holding an argument / a nested envelope).
+var deeperOneField = map[string]bool{"AssignmentEnvelope": true, "EnvelopeFieldValue": true, "AssignmentValue": true, "Assignment": true}
 
 func main() {
 	r := vx.Start("C18")
